@@ -193,8 +193,9 @@ type App struct {
 	dead      atomic.Bool // the hub behind this application was replaced by a restart: a real reboot leaves nothing behind
 	L         *Log
 	AllowWait atomic.Bool
-	Echo      atomic.Bool // echo every received payload back
-	StoreID   atomic.Bool // store reported SHIP ids in the service details
+	Echo      atomic.Bool  // echo every received payload back
+	StoreID   atomic.Bool  // store reported SHIP ids in the service details
+	SlowMs    atomic.Int32 // a slow application: every callback takes this long (0 = immediate)
 	node      *Node
 
 	mu      sync.Mutex
@@ -221,13 +222,23 @@ func (a *App) who() string {
 	return a.Name
 }
 
-func (a *App) RemoteSKIConnected(ski string)    { a.L.Add(a.who(), "connected", ski, "", 0) }
-func (a *App) RemoteSKIDisconnected(ski string) { a.L.Add(a.who(), "disconnected", ski, "", 0) }
+func (a *App) slow() {
+	if ms := a.SlowMs.Load(); ms > 0 {
+		time.Sleep(time.Duration(ms) * time.Millisecond)
+	}
+}
+
+func (a *App) RemoteSKIConnected(ski string) { a.L.Add(a.who(), "connected", ski, "", 0) }
+func (a *App) RemoteSKIDisconnected(ski string) {
+	a.L.Add(a.who(), "disconnected", ski, "", 0)
+	a.slow()
+}
 func (a *App) SetupRemoteDevice(ski string, w api.ShipConnectionDataWriterInterface) api.ShipConnectionDataReaderInterface {
 	a.mu.Lock()
 	a.writers[ski] = w
 	a.mu.Unlock()
 	a.L.Add(a.who(), "setup", ski, "", 0)
+	a.slow()
 	return &appReader{a: a, ski: ski, w: w}
 }
 func (a *App) VisibleRemoteServicesUpdated(entries []api.RemoteService) {
